@@ -384,6 +384,14 @@ def o14_6_filter_keys(mir, tier):
                 return f
             for ty in (r'\[u8\]', r'Vec<u8>', r'&\[u8\]', r'&Vec<u8>', r'&&\[u8\]'):
                 P[r'<%s as PartialEq(?:<.*>)?>::eq' % ty] = beq(False); P[r'<%s as PartialEq(?:<.*>)?>::ne' % ty] = beq(True)
+            def starts_with(se, env, pc, a, b):
+                # contents are abstract: equal strings and the empty needle are prefixes, a longer needle is not, anything else may be
+                x, y = P_(se, env, a), P_(se, env, b)
+                if not (isinstance(x, dict) and isinstance(y, dict) and 'sym' in x and 'sym' in y): raise Inconclusive('starts_with of %r and %r' % (x, y))
+                se.nfree = getattr(se, 'nfree', 0) + 1; free = Bool('is_prefix_%d' % se.nfree)
+                return lib.one(env, Or(And(x['len'] == y['len'], x['sym'] == y['sym']), y['len'] == 0, And(ULT(y['len'], x['len']), free)))
+            P[r'core::slice::<impl \[.*\]>::starts_with'] = starts_with
+            P[r'<Vec<u8> as Deref>::deref'] = lib.ident; P[r'Vec::as_slice'] = lib.ident; P[r'<Vec<u8> as DerefMut>::deref_mut'] = lib.ident
             P[r'<&\[u8\] as Default>::default'] = lambda se, env, pc: lib.one(env, {'len': bv(0), 'sym': BitVecVal(0, 16), 'kind': 'key'})
             P[r'<&\[.*\] as Default>::default'] = P[r'<&\[u8\] as Default>::default']
             P[r'Vec::is_empty'] = lambda se, env, pc, r: lib.one(env, (P_(se, env, r)['len'] == 0) if isinstance(P_(se, env, r), dict) else BoolVal(len(P_(se, env, r)) == 0))
